@@ -264,11 +264,12 @@ func init() {
 			return nSeeds + c.Pick(12000, 400000) + directedCount(c)/c.Pick(6, 1) + c05PairCases(c) + c05LongCases + c05CfgCases(c)
 		},
 		RunCase: func(c *mon.Ctx, i int) { c05Case(c, i, c.Only >= 0 || i%c05FreshEvery == 0) },
-		Aux:     map[string]func(c *mon.Ctx){"io": c05IOAux},
+		Aux:     map[string]func(c *mon.Ctx){"io": c05IOAux, "env": c05EnvAux},
 		Finish: func(c *mon.Ctx, r *mon.Report, ev *mon.Evidence) []string {
 			gates := mutGate(r, 500)
 			gates = append(gates, c05Fresh(c, r, ev)...)
 			gates = append(gates, c05IOPhase(c, r, ev)...)
+			gates = append(gates, c05EnvPhase(c, r, ev)...)
 			ev.Coverage["configuration_history_steps"] = r.Counters["configuration_history_steps"]
 			ev.Coverage["long_repetition_runs"] = r.Counters["long_repetition_runs"]
 			if r.Counters["configuration_history_steps"] < 500 {
